@@ -590,6 +590,52 @@ Proof.
   - rewrite <- Eu. apply apply_ite_fits.
 Qed.
 
+(** *** whether an operation fails does not depend on the recursor (nor, for
+    the code, on the interleaving of the parallel branches): it is decided by
+    whether the table of the unbounded run fits *)
+
+Lemma exact_code : forall cap s rb rb' su cu ru,
+  exact_outcome cap s rb su cu ru -> exact_outcome cap s rb' su cu ru -> res_code rb = res_code rb'.
+Proof.
+  intros cap s rb rb' su cu ru [A1 B1] [A2 B2].
+  destruct (le_lt_dec (node_count su) (Nat.max cap (node_count s))) as [Hfit|Hbig].
+  - rewrite (A1 Hfit), (A2 Hfit). reflexivity.
+  - destruct (B1 Hbig) as [s1 [c1 [-> _]]]. destruct (B2 Hbig) as [s2 [c2 [-> _]]]. reflexivity.
+Qed.
+
+Theorem oom_outcome_recursor_indep_not : forall cap par par' fuel s c f,
+  BddOK s -> CacheOK cget s c -> ref_ok s f -> FUEL s <= fuel ->
+  res_code (apply_not_c C cget cadd cap par fuel s c f) =
+  res_code (apply_not_c C cget cadd cap par' fuel s c f).
+Proof.
+  intros cap par par' fuel s c f B O Hf Hfuel.
+  destruct (oom_exact_not cap par fuel s c f B O Hf Hfuel) as [su [cu [ru [E [_ X]]]]].
+  destruct (oom_exact_not cap par' fuel s c f B O Hf Hfuel) as [su' [cu' [ru' [E' [_ X']]]]].
+  rewrite E in E'. inversion E'; subst. eapply exact_code; eauto.
+Qed.
+
+Theorem oom_outcome_recursor_indep_bin : forall cap par par' op fuel s c f g,
+  BddOK s -> CacheOK cget s c -> ref_ok s f -> ref_ok s g -> FUEL s <= fuel ->
+  res_code (apply_bin_c gt C cget cadd cap par fuel s c op f g) =
+  res_code (apply_bin_c gt C cget cadd cap par' fuel s c op f g).
+Proof.
+  intros cap par par' op fuel s c f g B O Hf Hg Hfuel.
+  destruct (oom_exact_bin cap par op fuel s c f g B O Hf Hg Hfuel) as [su [cu [ru [E [_ X]]]]].
+  destruct (oom_exact_bin cap par' op fuel s c f g B O Hf Hg Hfuel) as [su' [cu' [ru' [E' [_ X']]]]].
+  rewrite E in E'. inversion E'; subst. eapply exact_code; eauto.
+Qed.
+
+Theorem oom_outcome_recursor_indep_ite : forall cap par par' fuel s c f g h,
+  BddOK s -> CacheOK cget s c -> ref_ok s f -> ref_ok s g -> ref_ok s h -> FUEL s <= fuel ->
+  res_code (apply_ite_c gt C cget cadd cap par fuel s c f g h) =
+  res_code (apply_ite_c gt C cget cadd cap par' fuel s c f g h).
+Proof.
+  intros cap par par' fuel s c f g h B O Hf Hg Hh Hfuel.
+  destruct (oom_exact_ite cap par fuel s c f g h B O Hf Hg Hh Hfuel) as [su [cu [ru [E [_ X]]]]].
+  destruct (oom_exact_ite cap par' fuel s c f g h B O Hf Hg Hh Hfuel) as [su' [cu' [ru' [E' [_ X']]]]].
+  rewrite E in E'. inversion E'; subst. eapply exact_code; eauto.
+Qed.
+
 End Top.
 
 (** ** Variable creation ([var_edge] / [not_var_edge]): one insertion, no
